@@ -17,6 +17,7 @@ import (
 	"log"
 	"os"
 	"runtime/debug"
+	"runtime/pprof"
 	"strconv"
 	"strings"
 	"time"
@@ -37,6 +38,11 @@ func main() {
 	log.SetOutput(io.Discard)
 	debug.SetGCPercent(200)
 
+	if pf := os.Getenv("VERIF_PROF"); pf != "" {
+		f, _ := os.Create(pf)
+		pprof.StartCPUProfile(f)
+		defer pprof.StopCPUProfile()
+	}
 	c := vh.Registry[*check]
 	if c == nil {
 		fmt.Fprintf(os.Stderr, "INFRA: unknown check %q\n", *check)
